@@ -1249,6 +1249,12 @@ func e2eCases(r *hx.Rand) {
 		runScenario(scenario{[]string{"old=" + filepath.Join(dir, "exact-a.txt"), "new=" + filepath.Join(dir, "exact-b.txt")}, ".fullname", ".file",
 			map[string]bool{"compare": true, "warn30": true}})
 	}
+	// C10-R shape: a row with a zero centre next to two magnitudes of different prefixes (>= 3 columns)
+	os.WriteFile(filepath.Join(dir, "s0.txt"), []byte("BenchmarkX-8 1 0 B/op 0 ns/op\nBenchmarkY-8 1 7 B/op 3 ns/op\n"), 0o666)
+	os.WriteFile(filepath.Join(dir, "s1.txt"), []byte("BenchmarkX-8 1 5 B/op 12 ns/op\nBenchmarkY-8 1 9 B/op 4 ns/op\n"), 0o666)
+	os.WriteFile(filepath.Join(dir, "s2.txt"), []byte("BenchmarkX-8 1 3221225472 B/op 5000000000 ns/op\nBenchmarkY-8 1 8 B/op 5 ns/op\n"), 0o666)
+	runScenario(scenario{[]string{filepath.Join(dir, "s0.txt"), filepath.Join(dir, "s1.txt"), filepath.Join(dir, "s2.txt")}, ".fullname", ".file",
+		map[string]bool{"zero": true, "compare": true, "units": true}})
 	// C16-Q witness and family: -table "" -row .name -col .config,/impl (and the other orders)
 	curTableBy = ""
 	os.WriteFile(filepath.Join(dir, "q.txt"), []byte("goos: linux\nBenchmarkX/impl=a-8 1 1 ns/op\nBenchmarkX/impl=b-8 1 2 ns/op\ngoos: darwin\nBenchmarkX/impl=a-8 1 3 ns/op\n"), 0o666)
